@@ -162,8 +162,15 @@ class Monitor:
     #  - an application id put back by a deletion that was then REJECTED, while that session is still live (F24), or
     #  - the ctrID 0 of a PDR created by a modification (sendUpdate allocates no counter), while that PDR is live,
     #    or cell 0 after the deletion of such a session released it
-    def why(self, kind, ident, st):
+    def why(self, kind, ident, st, owner=None):
         live = {s["lseid"] for s in st["store"]}
+        if kind in ("appcell", "sesscell") and owner is not None:
+            # the entry of session `owner` names, as cell of THIS meter array, the number of a cell the session holds in the OTHER array:
+            # after a modification re-ran MarkSessionQer the PDR's QER list is re-ordered, so the MODIFY batch writes the flow QER's
+            # (application) cell as session_meter_idx and the session QER's cell as app_meter_idx
+            other = MT_SESS if kind == "appcell" else MT_APP
+            if any(m[0] == owner and m[2] == other and ident in meter_cells(m) for m in st["meters"]):
+                return "entry-names-cell-of-other-array-after-requalification"
         if kind == "ctr":
             for s in st["store"]:
                 for p in s["rules"]["pdrs"]:
@@ -276,7 +283,8 @@ class Monitor:
             seen = {}
             for ident, owner, d in inst[k]:
                 if ident in seen and seen[ident] != owner:
-                    self.flag(i, f"two-sessions-one-cell/{k}", f"{k} {ident} is named by entries of sessions {seen[ident]} and {owner}")
+                    tag = self.why(k, ident, st, owner) or self.why(k, ident, st, seen[ident])
+                    self.flag(i, f"two-sessions-one-cell/{k}" + (f"/{tag}" if tag else ""), f"{k} {ident} is named by entries of sessions {seen[ident]} and {owner}")
                 seen.setdefault(ident, owner)
 
         # ---- (b) free while in use
@@ -289,7 +297,7 @@ class Monitor:
                               f"{k} {ident} is in its pool while {owner} (live) holds it")
             for ident, owner, d in inst[k]:
                 if ident in pool:
-                    tag = self.why(k, ident, st)
+                    tag = self.why(k, ident, st, owner)
                     self.flag(i, f"free-while-installed/{k}" + (f"/{tag}" if tag else ""),
                               f"{k} {ident} is in its pool while entry {d} of live session {owner} names it")
 
@@ -322,6 +330,8 @@ class Monitor:
                 taken.append((k, v))
                 if v in prev_held_live[k] or any(ident == v for ident, _, _ in prev_inst[k]):
                     tag = self.why(k, v, prev)
+                    if tag is None and v not in prev_held_live[k]:
+                        tag = next((t for t in (self.why(k, v, prev, o_) for ident, o_, _ in prev_inst[k] if ident == v) if t), None)
                     self.flag(i, f"handed-out-while-in-use/{k}" + (f"/{tag}" if tag else ""),
                               f"{k} {v} was handed out although a live session still used it")
             else:
@@ -336,7 +346,13 @@ class Monitor:
                         self.flag(i, f"double-release/{k}" + (f"/{tag}" if tag else ""), f"{k} {v} ({ending[k][v]}) released although it was already free")
                     continue
                 src = [k2 for (k2, v2) in taken if v2 == v and k2 != k]
-                if src:
+                meterk = ["appcell", "sesscell"]
+                order = ([k2 for k2 in meterk if k2 != k] if k in meterk else []) + [k2 for k2 in KINDS if k2 != k and not (k in meterk and k2 in meterk)]
+                ended_as = [k2 for k2 in order if v in ending[k2]]
+                if not src and ended_as:
+                    # released by the deletion of its owner - into another pool than the one it was taken from
+                    self.flag(i, f"migration/{ended_as[0]}->{k}", f"id {v} ({ending[ended_as[0]][v]}) held as {ended_as[0]} was put into pool {k}")
+                elif src:
                     taken.remove((src[-1], v))
                     self.flag(i, f"migration/{src[-1]}->{k}", f"id {v} taken from pool {src[-1]} was put into pool {k}")
                 else:
